@@ -391,6 +391,14 @@ func runC02(c *fw.Ctx) {
 			noteTree(c, tree)
 			real := buildOrGiven(r, tree)
 			text := stringOf(real)
+			textCopy := strings.Clone(text)
+			defer func() {
+				// what String() returned stays what it was while later calls (of this and of other containers) run
+				other := at.NewList("another container", 1, 2.5).String() + at.NewObject("k", "v").String()
+				if text != textCopy {
+					c.Violate("string-output-changes-afterwards", describeTree(tree)+"\nthe string returned by the first String(), looked at again after later String() calls (the last ones gave "+other+")", textCopy, text)
+				}
+			}()
 			c.MarkInput(text)
 			if c.WantSample() && tree.Size() > 3 && tree.Size() < 30 {
 				c.Sample(map[string]any{"tree": tree.Canon(), "String()": text})
@@ -584,6 +592,20 @@ func c16Case(c *fw.Ctx, tree *spec.Spec, r *rng.R) {
 	real := buildOrGiven(r, tree)
 	plain := stringOf(real)
 	before := stringCanon(real)
+	// what a call returned stays what it was while later calls run: every output is kept next to a private copy of its bytes
+	type keptOutput struct {
+		indent     int
+		kept, copy string
+	}
+	kept := []keptOutput{{-1, plain, strings.Clone(plain)}}
+	defer func() {
+		for _, k := range kept {
+			if k.kept != k.copy {
+				c.Violate("format-output-changes-afterwards", fmt.Sprintf("%s\nthe string returned by FormatString(%d) (-1: String()), looked at again after the later calls", describeTree(tree), k.indent), k.copy, k.kept)
+				return
+			}
+		}
+	}()
 	for indent := 0; indent <= 10; indent++ {
 		c.MarkInput(fmt.Sprintf("indent %d of %s", indent, plain))
 		in := func() string {
@@ -595,6 +617,7 @@ func c16Case(c *fw.Ctx, tree *spec.Spec, r *rng.R) {
 			continue
 		}
 		c.Count("format_calls")
+		kept = append(kept, keptOutput{indent, out, strings.Clone(out)})
 		in2 := func() string { return in() + " = " + out + "\nString() = " + plain }
 		if out == "" {
 			c.Violate("format-empty-output", in2(), "non-empty output", "empty string")
